@@ -68,6 +68,9 @@ def gen_params(rng, tier):
         d = dict(base)
         d[a], d[b] = NAN, -1.0
         yield dict(kind='check', **d)
+    # the command line end to end (nothing intercepted but the file system): non-square shapes, both flags
+    for (w, l, fd) in [(4, 2, False), (2, 3, True), (1, 3, False), (3, 1, True), (2, 2, False)] + ([(5, 2, True), (1, 1, False), (2, 5, False)] if tier == 'thorough' else []):
+        yield dict(kind='e2e', seed=rng.randrange(100), width=w, length=l, fd=fd, pr=0.2, pl=0.3, pt=0.4, pb=0.15, m=rng.choice([1, 3, 6]))
     n = dict(quick=150, thorough=3000)[tier]
     for i in range(n):
         yield dict(kind='board', seed=rng.choice([0, 1, 2, 47, rng.randrange(10 ** 6)]), length=rng.randint(1, 6), width=rng.randint(1, 6),
@@ -75,9 +78,55 @@ def gen_params(rng, tier):
                    stub=rng.choice([None, None, None, 0.0, 1 - 2 ** -53, 0.5]))
 
 
+def check_e2e(inp, mods):
+    """python roberta_generator.py <accepted parameters>: exactly one file appears under inputs/, it reads back as three games of the
+    requested shape, and each passes the solver's own validation"""
+    from board_checks import MemFS
+    rg, tad, cr = mods['roberta_generator'], mods['tad'], mods['conditionalrewards']
+    argv = [f'--seed={inp["seed"]}', f'--width={inp["width"]}', f'--length={inp["length"]}', f'--prob_robot_break={inp["pr"]}', f'--prob_light_break={inp["pl"]}',
+            f'--prob_loose_tile={inp["pt"]}', f'--prob_tile_break={inp["pb"]}', f'--max_reward={inp["m"]}'] + (['--force_down'] if inp['fd'] else [])
+    how = f'[python roberta_generator.py {" ".join(argv)}] '
+    old_argv = sys.argv
+    with MemFS() as fs:
+        sys.argv = ['roberta_generator.py'] + argv
+        try:
+            rg.main()
+        except BaseException as e:   # noqa
+            return [({'C11', 'C15'}, 'in-range-generates', how + f'ended with {type(e).__name__}: {e}')]
+        finally:
+            sys.argv = old_argv
+        files = dict(fs.files)
+        if len(files) != 1 or not list(files)[0].startswith('inputs/'):
+            return [({'C11'}, 'one-file-under-inputs', how + f'files written: {list(files)}')]
+        name = list(files)[0]
+        try:
+            games = cr.read_dict_from_file(name)
+        except BaseException as e:   # noqa
+            return [({'C11'}, 'file-loadable', how + f'reading {name} back failed with {type(e).__name__}: {str(e)[:200]}')]
+    F = []
+    if not isinstance(games, dict) or list(games) != ['game_a', 'game_b', 'game_c']:
+        return [({'C11'}, 'three-games', how + f'the file holds {list(games) if isinstance(games, dict) else type(games).__name__}')]
+    nt = inp['width'] * inp['length']
+    for key, groups in (('game_a', 4), ('game_b', 7), ('game_c', 10)):
+        g = games[key]
+        try:
+            n = len(g['players'])
+            sg = tad.StochasticGame(**g)
+            sg.check_game()
+            sg.init_states()
+        except BaseException as e:   # noqa
+            F.append(({'C11'}, 'validated-by-the-solver', how + f'{key}: {type(e).__name__}: {str(e)[:200]}'))
+            continue
+        if n != groups * nt + 2:
+            F.append(({'C11', 'C08'}, 'board-shape', how + f'{key} has {n} states, a {inp["length"]}x{inp["width"]} board gives {groups * nt + 2}'))
+    return F[:3]
+
+
 def check_params(inp, mods, rng=None):
     rg = mods['roberta_generator']
     F = []
+    if inp['kind'] == 'e2e':
+        return check_e2e(inp, mods)
     if inp['kind'] == 'check':
         args = (inp['seed'], inp['width'], inp['length'], inp['pr'], inp['pl'], inp['pt'], inp['pb'], inp['m'])
         want = in_range(*args)
@@ -159,6 +208,9 @@ def check_params(inp, mods, rng=None):
 def gen_names(rng, tier):
     for fld in ('pr', 'pl', 'pb', 'pt'):
         yield dict(kind='sweep', field=fld, fd=(fld in ('pl', 'pt')))
+    # seeds far beyond float precision (clock- or hash-derived 64-bit seeds): neighbouring seeds must still get different names
+    for big in (2 ** 53 + 1, 2 ** 53 + 2, 10 ** 18 + 1, 2 ** 63 - 1, 12345678901234567890):
+        yield dict(kind='pair', a=[big, 2, 3, 4, 10, 20, 30, 40, False], b=[big + 1, 2, 3, 4, 10, 20, 30, 40, False], perturb=9)
     n = dict(quick=60, thorough=1500)[tier]
     for i in range(n):
         yield dict(kind='pair', a=[rng.randrange(0, 50), rng.randint(1, 12), rng.randint(1, 12), rng.randint(1, 11)] + [rng.randint(1, 99) for _ in range(4)] + [rng.random() < 0.5],
